@@ -18,6 +18,10 @@ package blobclient
 // protocol (it returns nil only right after a request that returned nil), and - by the callback
 // rule - the top-level postcondition of clusterClient.DownloadBlob.
 
+// The closure's reasoning rests on n counting exactly the bytes handed to w: every method of
+// countingWriter that touches either field must be under contract (an io.ReaderFrom fast path that
+// passes bytes to w without counting them would silently defeat the refusal of later attempts).
+//@ closed_type countingWriter fields w, n
 //@ func countingWriter.Write
 //@   requires c != nil && c.w != nil && 0 <= c.n && c.n <= 4611686018427387904 && len(p) <= 4611686018427387904
 //@   modifies c.n, c.w.nw
